@@ -322,7 +322,7 @@ func TestLifecycleHistoriesRapid(t *testing.T) {
 	rapid.Check(t, func(rt *rapid.T) {
 		nL := rapid.IntRange(1, 4).Draw(rt, "lifecyclers")
 		waitOwners := rapid.IntRange(0, 2).Draw(rt, "waitOwners")
-		waitDur := time.Duration(rapid.SampledFrom([]int{0, 1, 3, 10}).Draw(rt, "waitDur")) * time.Second
+		waitDur := time.Duration(rapid.SampledFrom([]int{0, 1000, 3000, 10000, 500, 1500, 2700}).Draw(rt, "waitDurMs")) * time.Millisecond
 		delDelay := time.Duration(rapid.SampledFrom([]int{0, 2, 5, 10}).Draw(rt, "deleteDelay")) * time.Second
 		cfgs := make([]lcCfg, nL)
 		for i := range cfgs {
@@ -353,6 +353,7 @@ func TestLifecycleHistoriesRapid(t *testing.T) {
 		lockedPending := 0
 		ownerless := 0
 		raced := 0
+		slowWrites := 0
 		vx.Bubble(t, func(b *vx.B) {
 			t0 := time.Now()
 			store, closer := consul.NewInMemoryClient(ring.GetPartitionRingCodec(), log.NewNopLogger(), nil)
@@ -439,9 +440,17 @@ func TestLifecycleHistoriesRapid(t *testing.T) {
 					var err error
 					target := s.part
 					if s.kind == "editor-state" {
+						// now and then the store is slow to serve the editor's write (the delay keeps the write
+						// off the instants at which the lifecyclers tick): what counts is the ring at the time of
+						// the write, and the change is stamped with that time
+						if s.dt%(2*time.Second) != 0 {
+							edRec.SetDelay(1337*time.Millisecond+time.Duration(si)*7*time.Microsecond, func() { before = current() })
+							slowWrites++
+						}
 						edRec.SetExplicit(true)
 						err = editor.ChangePartitionState(context.Background(), s.part, s.state)
 						edRec.SetExplicit(false)
+						edRec.SetDelay(0, nil)
 					} else {
 						if !running[s.who] || lcs[s.who].State() != services.Running {
 							continue
@@ -705,6 +714,9 @@ func TestLifecycleHistoriesRapid(t *testing.T) {
 		if lockedPending > 0 {
 			vx.Class("histories_with_a_pending_partition_locked", 1)
 			nontrivial = true
+		}
+		if slowWrites > 0 {
+			vx.Class("histories_with_editor_writes_served_slowly", 1)
 		}
 		if raced > 0 {
 			vx.Class("histories_with_a_lost_startup_race", 1)
